@@ -32,7 +32,7 @@ OMEN_Y = {'ngram': 2, 'alphabet': ['x', 'y', 'z'], 'ip': {'x': 0, 'y': 1, 'z': 2
           'keyspace': {1: 3, 2: 8}}
 OMEN_Z = {'ngram': 3, 'alphabet': ['x', 'y'], 'ip': {'xx': 0, 'xy': 1, 'yx': 1, 'yy': 2}, 'ep': {},
           'cp': {'xxx': 1, 'xxy': 0, 'xyx': 0, 'xyy': 2, 'yxx': 0, 'yxy': 1, 'yyx': 0, 'yyy': 1}, 'ln': [10, 10, 0, 1, 2],
-          'keyspace': {1: 5, 2: 9}}
+          'keyspace': {1: 5, 2: 9, 3: 12}}
 
 
 def omen(m, probs):
@@ -55,6 +55,8 @@ def specs(tier):
     add([('D2', .75), ('M', .25)], omen(OMEN_X, [(1, .5), (2, .25), (3, .125)]), 'M last (several levels)')
     add([('M', .5), ('D1', .25)], omen(OMEN_X, [(1, .125), (2, .0625)]), 'M tied with its successor')
     add([('D1', .5), ('M', .5)], omen(OMEN_Z, [(1, .25), (2, .125)]), 'ngram3, two initial n-grams per level')
+    # a level >= 2 that is NOT the last pre-terminal and contains strings whose length has level 2 (several lengths per level)
+    add([('M', .6), ('D1', .4)], omen(OMEN_Z, [(1, .5), (2, .25), (3, .0625)]), 'ngram3, levels 1-3, Markov levels interleaved with dictionary pre-terminals')
     if tier == 'thorough':
         add([('M', .5), ('A1D1', .5)], omen(OMEN_Y, [(1, .25), (2, .0625)]), 'ngram2 three letters')
         add([('A1', .5), ('M', .25), ('D1D1', .25)], omen(OMEN_X, [(1, .5), (2, .25), (3, .125)]), 'three structures')
